@@ -162,7 +162,7 @@ func runC03(k *eng.Check, tier string) {
 			k.OnlyAfter("truncate-then-sync", fn, "after Truncate a success exit is reached only through Sync", eng.SuccessExits(fn), 1, k.OkCalls(fn, "sync", mSync), eng.After(in))
 		}
 		// tryTruncate guard
-		k.OnlyAfter("truncate-needs-tryTruncate", fn, "Truncate only on the tryTruncate-true edge", trunc, 1, eng.CondEdges(fn, `param:tryTruncate`, true))
+		k.OnlyAfter("truncate-needs-tryTruncate", fn, "Truncate only on the tryTruncate-true edge", trunc, 1, predTrueEdges(fn)) // the function's only bool parameter, whatever it is called
 	}
 
 	// (5) validator verdicts consumed
@@ -179,7 +179,15 @@ func runC03(k *eng.Check, tier string) {
 	}
 	// in processJournalRecordsReader a record reaches cb only past validateJournalRecord nil and readJournalRecord nil
 	if fn := k.Fn("store/nbs.processJournalRecordsReader"); fn != nil {
-		cb := eng.CallSet(fn, eng.Named(`^dyn:param:cb$`))
+		// the record callback: a dynamic call of a function-typed parameter taking a journalRec
+		cb := eng.CallSet(fn, func(ci ssa.CallInstruction) bool {
+			cc := ci.Common()
+			if cc.IsInvoke() || cc.StaticCallee() != nil {
+				return false
+			}
+			_, isParam := cc.Value.(*ssa.Parameter)
+			return isParam && strings.Contains(eng.ShortType(cc.Value.Type()), "journalRec")
+		})
 		k.OnlyAfter("record-validated-before-use", fn, "cb receives a record only after validateJournalRecord returned nil", cb, 1, k.OkCalls(fn, "validate", eng.Static("store/nbs.validateJournalRecord")))
 		k.OnlyAfter("record-validated-before-use", fn, "cb receives a record only after readJournalRecord returned nil", cb, 1, k.OkCalls(fn, "readrec", eng.Static("store/nbs.readJournalRecord")))
 		// every way of stopping at a record that cannot be used (zero length, oversized length, record
